@@ -135,3 +135,5 @@ pub proof fn lemma_stages_push(t: Seq<StageEv>, e: StageEv, p: ast::Pipeline, pa
         if i < t.len() { assert(stage_ok_at(t, i, p, params, o)); assert(t2[i] == t[i]); if i > 0 { assert(t2[i - 1] == t[i - 1]); } }
     }
 }
+
+#[verifier::external_body] pub fn exit_code_of_error(e: &error::Error) -> ExecutionExitCode { unimplemented!() }     // From<&Error> for ExecutionExitCode
